@@ -404,7 +404,55 @@ def run_cache_key(P, rep, rule="R-CACHEKEY"):
                 rep.viol(rule, site, P.where(fn, t["line"]), "the cache key is transformed by `%s`: a partial is filed under a name other than the requested one" % bad[0])
             else:
                 rep.ok(rule, site, P.where(fn, t["line"]), "insert(name.to_string(), result): key is a plain copy of the requested name")
+            _cache_value_is_returned(P, rep, fn, bi, t, site, rule)
     rep.analysed[rule + ".writes"] = n
+
+
+def _cache_value_is_returned(P, rep, fn, bi, t, site, rule):
+    """After `cache.insert(name, V.clone())` the function hands back V itself (or `V.ok()`): what the first caller gets is
+    what every later caller will get from the cache.  A value transformed after the insert (extra error context, a wrapper)
+    makes the first render differ from the second."""
+    from mirutil import defs_of, copy_root
+    if len(t["args"]) < 3:
+        return
+    vl = op_local(t["args"][2])
+    src = None
+    if vl:
+        ds = defs_of(fn, copy_root(fn, vl[0]))
+        if len(ds) == 1 and ds[0][0] == "c" and ds[0][3].get("f") and ds[0][3]["f"]["id"].rsplit("::", 1)[1] == "clone":
+            al = op_local(ds[0][3]["args"][0])
+            if al:
+                rd = defs_of(fn, al[0])
+                if len(rd) == 1 and rd[0][0] == "a" and rd[0][3]["k"] == "ref":
+                    src = rd[0][3]["p"][0] if not rd[0][3]["p"][1] else None
+    if src is None:
+        return      # the cached value is moved in, not cloned: nothing else is left to return
+    after = P.reach(fn, P.succ(fn)[bi])
+    bad = None
+    n = 0
+    for b in sorted(after):
+        blk = fn.blocks[b]
+        for st in blk["s"]:
+            if st[0] == "a" and st[1][0] == 0 and not st[1][1]:
+                n += 1
+                rv = st[2]
+                ol = op_local(rv["o"]) if rv["k"] == "use" else None
+                if not (ol and not ol[1] and copy_root(fn, ol[0]) == src):
+                    bad = bad or st[3]
+        tt = blk["t"]
+        if tt["k"] == "call" and tt["d"][0] == 0 and not tt["d"][1]:
+            n += 1
+            f = tt.get("f")
+            a0 = op_local(tt["args"][0]) if tt.get("args") else None
+            if not (f and f["id"].rsplit("::", 1)[1] == "ok" and "Result" in f["name"] and a0 and not a0[1] and copy_root(fn, a0[0]) == src):
+                bad = bad or tt["line"]
+    vsite = site.replace("insert#", "insert-value#")
+    if bad is not None:
+        rep.viol(rule, vsite, P.where(fn, bad),
+                 "the value returned after the cache insert is not the cached value itself: the first caller of a partial gets a different "
+                 "result (e.g. extra error context) from every later caller, so a re-render differs from the first render")
+    elif n:
+        rep.ok(rule, vsite, P.where(fn, t["line"]), "the value returned after the insert is the cached value itself (plain move / `.ok()`)")
 
 
 # ---------------------------------------------------------------------------------------
@@ -436,3 +484,67 @@ def run_no_skip(P, rep, rule="R-NOSKIP"):
                      "failing like any other unknown partial")
         else:
             rep.ok(rule, site, P.where(fn), "every Ok(()) exit is dominated by the store lookup (%d exits)" % len(oks))
+
+
+# ---------------------------------------------------------------------------------------
+# R-LISTORDER: name lists that come from hash maps are sorted as a whole before they are shown
+
+LIST_SOURCES = ("names", "plugin_names")
+LIST_CUTS = ("take", "skip", "nth", "next", "last", "step_by", "take_while", "skip_while", "zip", "rev", "enumerate", "peekable",
+             "chain", "truncate", "drain", "split_off", "pop", "remove", "swap_remove", "first", "get", "split_at", "chunks", "windows",
+             "find", "position", "fold", "reduce")
+
+
+def run_list_order(P, rep, rule="R-LISTORDER"):
+    """Every `itertools::join` in liquid_core whose input derives from a registry / partial-store name list (`names()`,
+    `plugin_names()`, or a `Vec<&str>` / iterator parameter handed in by such a caller): (a) the joined vector is sorted by a
+    `sort*` call that dominates the join, and (b) nothing on the way from the source to the sort picks elements by position
+    (take / skip / truncate / first ..): the names come out of a HashMap, so a positional cut before the sort makes the error
+    text depend on the process-random hash order — the same template then fails with different messages."""
+    from origins import backward_slice
+    from mirutil import alias_closure, calls_using
+    n = 0
+    for fn in sorted(P.fns.values(), key=lambda f: f.id):
+        if fn.crate != "liquid_core" or "::test" in fn.id:
+            continue
+        k = 0
+        for bi, t in P.calls(fn):
+            f = t.get("f")
+            if not f or "itertools::join" not in f["name"] or not t["args"]:
+                continue
+            al0 = op_local(t["args"][0])
+            if not al0:
+                continue
+            locs, calls = backward_slice(fn, al0[0])
+            lasts = [(c["f"]["id"].rsplit("::", 1)[1], c) for c in calls if c.get("f")]
+            src = [l for l, _ in lasts if l in LIST_SOURCES]
+            params = [i for i in range(1, fn.argc + 1) if i in locs and fn.kind != "closure"
+                      and ("Vec<&str>" in P.local_ty(fn, i) or "Vec<&'" in P.local_ty(fn, i) or "Iterator" in P.local_ty(fn, i))]
+            if not src and not params:
+                continue
+            n += 1
+            site = "%s join#%d" % (fn.key, k)
+            k += 1
+            cuts = [(l, c) for l, c in lasts if l in LIST_CUTS]
+            if cuts:
+                rep.viol(rule, site, P.where(fn, cuts[0][1]["line"]),
+                         "the name list is cut by position (`%s`) before it is sorted: which names are shown depends on the hash order of the registry" % cuts[0][0])
+                continue
+            root = al0[0]
+            al = alias_closure(fn, list(locs & set(l for l in locs if "Vec<" in P.local_ty(fn, l))))
+            for _i in range(4):
+                more = set()
+                for b2, t2, p2 in calls_using(fn, al):
+                    l2 = t2["f"]["id"].rsplit("::", 1)[1] if t2.get("f") else ""
+                    if l2 in ("deref", "deref_mut", "as_mut_slice", "as_slice", "as_mut", "as_ref", "borrow_mut") and not t2["d"][1]:
+                        more.add(t2["d"][0])
+                if more <= al:
+                    break
+                al = alias_closure(fn, list(al | more))
+            sorts = [b2 for b2, t2, p2 in calls_using(fn, al) if t2.get("f") and t2["f"]["id"].rsplit("::", 1)[1].startswith("sort")]
+            if not any(P.dominates(fn, s_, bi) for s_ in sorts):
+                rep.viol(rule, site, P.where(fn, t["line"]),
+                         "a registry / partial-store name list is joined without a dominating sort: the message lists the names in hash order")
+            else:
+                rep.ok(rule, site, P.where(fn, t["line"]), "names (%s) → collect → sort → join; no positional cut before the sort" % ", ".join(sorted(set(src)) or ["parameter"]))
+    rep.count(rule + ".sites", n)
